@@ -115,6 +115,37 @@ Proof.
   destruct protected_facts as (kek0' & Ek & Ew & Ect). intros Ek' N Hu. rewrite Ek in Ek'. apply Ok_inj in Ek'. subst kek0'.
   exact (no_other_plaintext_keyed_core L kek0 r1 r2 data _ _ X B' p' Ew Ect N Hu).
 Qed.
+
+(* the benign fields, in general: a blob B' whose value differs from the original only in the key-identifier version, in
+   flag bits other than bit 0 and in the domain / forest names still decrypts to the plaintext (those fields influence
+   neither the keys nor the ciphertext) -- with any cache in which the root key is loaded *)
+Definition with_kid (b : blob) (kid : key_identifier) : blob :=
+  {| b_key_identifier := kid; b_sid := b_sid b; b_enc_cek := b_enc_cek b; b_enc_cek_algorithm := b_enc_cek_algorithm b;
+     b_enc_cek_parameters := b_enc_cek_parameters b; b_enc_content := b_enc_content b;
+     b_enc_content_algorithm := b_enc_content_algorithm b; b_enc_content_parameters := b_enc_content_parameters b |}.
+Definition same_key_fields (k k' : key_identifier) : Prop :=
+  kid_l0 k' = kid_l0 k /\ kid_l1 k' = kid_l1 k /\ kid_l2 k' = kid_l2 k /\ kid_rkid k' = kid_rkid k /\
+  kid_key_info k' = kid_key_info k /\ kid_is_public_key k' = kid_is_public_key k.
+Lemma get_kek_same_fields e k k' : same_key_fields k k' -> get_kek c e k' = get_kek c e k.
+Proof. intros (E0 & E1 & E2 & _ & Ei & Ep). unfold get_kek. rewrite E0, E1, E2, Ei, Ep. reflexivity. Qed.
+
+Theorem benign_fields (L : CryptoLaws c) X B' kid' :
+  same_key_fields (b_key_identifier b0) kid' -> blob_unpack B' = Ok (with_kid b0 kid') ->
+  cache_ok c h rk rkid (target_sd s) l0 X -> fst (unprotect_offline c X B') = Ok data.
+Proof.
+  intros Hk Eu HX.
+  destruct (protect_inv c h rk rkid s sid time_ns l0 l1 l2 Hhash Halg Hrk Hsid Hsok Hns Hint Hne cache r1 r2 r3 data B cache1 Hc Hr2 Hr3 Sw Sct Hp)
+    as (e0 & seed & w & ct & p & Hb & _ & He0 & _ & Es & Hn & Ew & Ect & _ & Eiv & _ & _ & Eu0).
+  rewrite Hb0 in Eu0. apply Ok_inj in Eu0.
+  destruct (interval_ranges _ _ _ _ Hns Hint) as (H0 & H1 & H2).
+  set (kid0 := emitted_kid (gke_flags e0) l0 l1 l2 rkid r3 (gke_domain e0) (gke_forest e0)) in *.
+  assert (Ek0 : b_key_identifier b0 = kid0) by (rewrite Eu0; reflexivity). rewrite Ek0 in Hk.
+  destruct Hk as (K0 & K1 & K2 & Kr & Ki & Kp). cbn [kid0 emitted_kid kid_l0 kid_l1 kid_l2 kid_rkid] in K0, K1, K2, Kr.
+  apply (unprotect_general c h rk rkid s sid l0 l1 l2 Hhash Halg Hsid (conj H0 Hb) H1 H2 L X B' kid' (kek_nonce c h seed r3) r1 r2 data w ct p); auto.
+  - intros e' He' Hcov. rewrite (get_kek_same_fields e' kid0 kid'); [|unfold same_key_fields; cbn [kid0 emitted_kid kid_l0 kid_l1 kid_l2 kid_rkid]; auto 10].
+    exact (proj2 (kek_agreement c h rk rkid (target_sd s) l0 l1 l2 Hhash H1 H2 e0 e' seed r3 He0 He' Hcov Es Hn)).
+  - rewrite Eu. f_equal. rewrite Eu0. reflexivity.
+Qed.
 End Protected.
 End C04.
 
@@ -132,10 +163,6 @@ Proof. vm_compute. reflexivity. Qed.
 Lemma ex_unpack : blob_unpack ex_B = Ok ex_b0. Proof. vm_compute. reflexivity. Qed.
 
 (* benign changes: the key-identifier version and a flag bit other than bit 0 (and both, plus the names) *)
-Definition with_kid (b : blob) (kid : key_identifier) : blob :=
-  {| b_key_identifier := kid; b_sid := b_sid b; b_enc_cek := b_enc_cek b; b_enc_cek_algorithm := b_enc_cek_algorithm b;
-     b_enc_cek_parameters := b_enc_cek_parameters b; b_enc_content := b_enc_content b;
-     b_enc_content_algorithm := b_enc_content_algorithm b; b_enc_content_parameters := b_enc_content_parameters b |}.
 Definition tweak_kid (version flag_bits l2_delta : Z) (domain : pystr) (k : key_identifier) : key_identifier :=
   {| kid_version := version; kid_flags := Z.lor (kid_flags k) flag_bits; kid_l0 := kid_l0 k; kid_l1 := kid_l1 k; kid_l2 := kid_l2 k + l2_delta;
      kid_rkid := kid_rkid k; kid_key_info := kid_key_info k; kid_domain := domain; kid_forest := kid_forest k |}.
